@@ -1,8 +1,8 @@
 (* C09/Resolve.v -- SPECIFICATION of reference resolution: RFC 3986 section 5.2.2 (transform
    references), 5.2.3 (merge), 5.2.4 (remove_dot_segments), 5.3 (recomposition) and the
    component split of Appendix B, on strings of code points.
-   sophia_iri delegates resolution to the third-party crate oxiri (iri/src/resolve.rs), which is
-   not modelled: the implementation is compared with this specification case by case.
+   This is what the property demands of Iri::resolve; what the implementation does (it delegates
+   to the third-party crate oxiri) is modelled separately in Model.v (resolve_gen / resolve_impl).
    Definitions only. *)
 From Sophia.Common Require Import Prelude.
 
